@@ -340,6 +340,41 @@ Definition midpoint (l : list Q) : Q :=
   | a :: t => (fold_left Qmax t a + fold_left Qmin t a) / 2
   end.
 
+(* ---------------------------------------------------------------- datasets over several videos *)
+(* Labels = the list of labelled frames, each (video, frame index INSIDE that video, number of
+   non-empty instances); several videos may have the same frame index labelled (frame 0 of every
+   video).  Index space: BottomUp / Centroid / SingleInstance one sample per labelled-frame
+   position; CenteredInstance one sample per (position, instance).
+   CenteredInstanceDataset._fill_cache keeps the last decoded frame, `cache_lf = [key, image]`:
+   the frame is decoded once for all the instances of a labelled frame.  `key p` is what the
+   entry is filed under for the labelled frame at position p (the code: p itself); an image is
+   named by the position of the labelled frame it was decoded from. *)
+Definition lframe := (nat * nat * nat)%type.
+Definition lf_video (f : lframe) : nat := fst (fst f).
+Definition lf_frame (f : lframe) : nat := snd (fst f).
+Definition lf_ninst (f : lframe) : nat := snd f.
+Definition instance_index (labels : list lframe) : list (nat * nat) :=
+  flat_map (fun pf => map (pair (fst pf)) (seq 0 (lf_ninst (snd pf))))
+           (combine (seq 0 (length labels)) labels).
+Definition frame_index (labels : list lframe) : list (nat * nat) :=
+  map (fun p => (p, 0%nat)) (seq 0 (length labels)).
+Definition cache_state := option (nat * nat).
+Definition cache_read (key : nat -> nat) (st : cache_state) (p : nat) : cache_state * nat :=
+  match st with
+  | Some (k, img) => if Nat.eqb (key p) k then (st, img) else (Some (key p, p), p)
+  | None => (Some (key p, p), p)
+  end.
+Fixpoint cache_images (key : nat -> nat) (st : cache_state) (idx : list (nat * nat)) : list nat :=
+  match idx with
+  | [] => []
+  | (p, _) :: t => let '(st', img) := cache_read key st p in img :: cache_images key st' t
+  end.
+Definition cache_ok (key : nat -> nat) (st : cache_state) : Prop :=
+  match st with Some (k, img) => k = key img | None => True end.
+(* the variant that files the decoded frame under the frame index inside the video *)
+Definition key_frame_idx (labels : list lframe) (p : nat) : nat :=
+  lf_frame (nth p labels (0, 0, 0)%nat).
+
 (* ---------------------------------------------------------------- harness entry point *)
 Inductive case :=
 | CSizeMatch (H W : Z) (mh mw : option Z)
@@ -354,7 +389,8 @@ Inductive case :=
 | CAugContent (fixed_F04k : bool) (H W : Z) (m : mat) (pts : list kp)
 | CSizeMatchDP (mh mw : option Z) (imgs : list (Z * Z))
 | CCropper (H W h w : Z) (num : nat) (items : list ((Q * Q) * list kp))
-| CAugStack (entries : list (aug_op * bool)) (n_nodes : nat) (insts : list (list kp)).
+| CAugStack (entries : list (aug_op * bool)) (n_nodes : nat) (insts : list (list kp))
+| CFrameCache (centered : bool) (labels : list lframe).
 
 (* result: integers (sizes), rationals (scales / map coefficients), keypoints *)
 Definition result := option (list Z * list Q * list (list kp)).
@@ -427,4 +463,13 @@ Definition run (c : case) : result :=
       Some ([], [], map (fun r => fst r ++ [snd r]) (instance_cropper H W h w num items))
   | CAugStack entries n insts =>
       Some ([], [], aug_wrapper (map (stack_kp entries)) n insts)
+  | CFrameCache centered labels =>
+      (* per dataset index: labelled-frame position, instance, and the (video, frame index) of the
+         frame whose image the sample is cut from *)
+      let idx := if centered then instance_index labels else frame_index labels in
+      let imgs := if centered then cache_images (fun p => p) None idx else map fst idx in
+      Some (flat_map (fun e => let '((p, j), img) := e in
+                               let f := nth img labels (0, 0, 0)%nat in
+                               [Z.of_nat p; Z.of_nat j; Z.of_nat (lf_video f); Z.of_nat (lf_frame f)])
+                     (combine idx imgs), [], [])
   end.
